@@ -189,7 +189,18 @@ impl Circuit<F> for NativeCircuit {
         let chip: NG = NativeGadget::new(core.clone(), native_chip.clone());
         self.io.0.borrow_mut().clear();
         let ctx = Ctx::new(&self.spec, self.io.clone());
-        run_op(&ctx, &chip, &mut layouter)?;
+        if self.spec.op == "decompose_fixed" {
+            // the core decomposition chip called directly (NativeGadget only passes bit lengths that are
+            // multiples of the limb size): added after seeded C04-g
+            use midnight_circuits::field::decomposition::instructions::CoreDecompositionInstructions;
+            let x = ctx.in_native(&chip, &mut layouter)?;
+            let limbs = core.decompose_fixed_limb_size(&mut layouter, &x, self.spec.p_usize("bit_length"), self.spec.p_usize("limb_size"))?;
+            for lb in limbs.iter() {
+                ctx.out_native(&chip, &mut layouter, lb)?;
+            }
+        } else {
+            run_op(&ctx, &chip, &mut layouter)?;
+        }
         native_chip.load(&mut layouter)?;
         core.load(&mut layouter)
     }
